@@ -368,6 +368,9 @@ func VerifC04Registry() {
 	for i := range zzC04Known {
 		vrt.Assert(inTable[zzC04Known[i].key], "known-mismatch table names an unknown function")
 	}
+	for i := range zzC04KnownTails {
+		vrt.Assert(inTable[zzC04KnownTails[i].key], "known key-tail table names an unknown function")
+	}
 	vrt.Note("functions", count, "excluded", len(zzC04Excluded), "in-range-skipped", len(zzC04InRangeSkipped))
 	vrt.Reach("registry")
 }
@@ -496,6 +499,104 @@ var zzC04InRangeSkipped = map[string]string{
 	"bag:discover-json":                       "ojg discover with an interpreted callback",
 }
 
+// ---- part (b), keyword tails the documented lambda list does not allow ----
+
+// zzC04KeyDoc returns the number of positional (required + optional)
+// parameters and the first documented &key parameter (nil without &key).
+func zzC04KeyDoc(doc *slip.FuncDoc) (npos int, first *slip.DocArg) {
+	mode := 0
+	for i := 0; i < len(doc.Args); i++ {
+		da := doc.Args[i]
+		if 0 < len(da.Name) && da.Name[0] == '&' {
+			switch zzC04Lower(da.Name) {
+			case "&optional":
+				mode = 1
+			case "&rest", "&body":
+				mode = 2
+			case "&key":
+				mode = 3
+			case "&aux":
+				mode = 4
+			}
+			continue
+		}
+		switch mode {
+		case 0, 1:
+			npos++
+		case 2:
+			return npos, nil // &rest together with &key: the tail is also the rest list
+		case 3:
+			if first == nil {
+				first = da
+			}
+		}
+	}
+	return
+}
+
+// zzC04KeyTailArgs: all positional parameters by their documented type, then
+// variant 0: a dangling unknown keyword (:zzc04bogus)
+// variant 1: the first documented key with a value, then the same key again
+// without a value.
+func zzC04KeyTailArgs(g *zzC04Gen, doc *slip.FuncDoc, variant int) slip.List {
+	npos, first := zzC04KeyDoc(doc)
+	args := zzC04Args(g, doc, npos)
+	if variant == 0 {
+		return append(args, slip.Symbol(":zzc04bogus"))
+	}
+	name := first.Name
+	if 0 < len(name) && name[0] == ':' {
+		name = name[1:]
+	}
+	return append(args, slip.Symbol(":"+name), g.typed(first.Type), slip.Symbol(":"+name))
+}
+
+// VerifC04KeyTail: a built-in documented with &key (and without &rest) that is
+// called with a keyword tail ending in a keyword without value - unknown, or
+// one already supplied - does not return a value and does not end in a Go
+// run-time fault: it is rejected with a condition.
+func VerifC04KeyTail(idx int) {
+	key := zzC04Names[idx]
+	fi := zzC04Find(key)
+	vrt.Assert(fi != nil && fi.Doc != nil, "table entry is not in the registry")
+	_, first := zzC04KeyDoc(fi.Doc)
+	_, skip1 := zzC04Excluded[key]
+	_, skip2 := zzC04InRangeSkipped[key]
+	if first == nil || skip1 || skip2 {
+		vrt.Reach("not-applicable")
+		return
+	}
+	variant := vrt.Choice("variant", 2)
+	tfam := zzC04KnownTail(key, variant)
+	vrt.Carve("C04-arity-dangling-keyword-accepted", tfam == 0)
+	vrt.Carve(zzC04FamIDs[zzC04FamGoFault], tfam == 1)
+	zzC04Streams()
+	scope := slip.NewScope()
+	g := &zzC04Gen{scope: scope, kind: 0, cache: map[string]slip.Object{}}
+	args := zzC04KeyTailArgs(g, fi.Doc, variant)
+	class := zzC04Call(fi, scope, args)
+	vrt.Note("class", key, variant, class)
+	vrt.Reach("called")
+	vrt.Assert(class != zzC04Returned, "a keyword tail ending in a keyword without value is accepted (the call returns)")
+	vrt.Assert(class != zzC04GoFault, "a keyword tail ending in a keyword without value ends in a Go run-time fault")
+}
+
+// VerifC04ProbeKeyTail is a development aid: class of one key-tail call, -1 when not applicable.
+func VerifC04ProbeKeyTail(idx, variant int) int {
+	key := zzC04Names[idx]
+	fi := zzC04Find(key)
+	_, first := zzC04KeyDoc(fi.Doc)
+	_, skip1 := zzC04Excluded[key]
+	_, skip2 := zzC04InRangeSkipped[key]
+	if first == nil || skip1 || skip2 {
+		return -1
+	}
+	zzC04Streams()
+	scope := slip.NewScope()
+	g := &zzC04Gen{scope: scope, kind: 0, cache: map[string]slip.Object{}}
+	return zzC04Call(fi, scope, zzC04KeyTailArgs(g, fi.Doc, variant))
+}
+
 // ---- part (a) through the registry: lambda / funcall / apply / defun ----
 
 func zzC04ViaName(prefix string, i int) string {
@@ -509,7 +610,11 @@ func zzC04ViaName(prefix string, i int) string {
 // route 0: ((lambda ...) args)  1: (funcall (lambda ...) args)
 // route 2: (apply (lambda ...) first (list rest...))  3: defun + call.
 // perm 1 passes the keyword pairs in reverse parameter order.
-func VerifC04Via(route, nreq, nopt, rest, nkey, nargs, perm int) {
+// vmode 1: the argument for every &optional parameter and the value of every
+// keyword pair is chosen (vrt.Choice) among a symbolic fixnum, an explicit nil
+// and the quoted symbol zzs: a supplied nil stays nil, it is not replaced by
+// the parameter's (non-nil) default.
+func VerifC04Via(route, nreq, nopt, rest, nkey, nargs, perm, vmode int) {
 	npos := nreq + nopt
 	tail := 0
 	if npos < nargs {
@@ -551,13 +656,29 @@ func VerifC04Via(route, nreq, nopt, rest, nkey, nargs, perm int) {
 	for i := range vals {
 		vals[i] = vrt.Int64("a" + string(rune('0'+i)))
 	}
+	// pick returns the argument form and the value it evaluates to
+	pick := func(i int) (slip.Object, slip.Object) {
+		if vmode != 0 {
+			switch vrt.Choice("c"+string(rune('0'+i)), 3) {
+			case 1:
+				return nil, nil
+			case 2:
+				return slip.List{slip.Symbol("quote"), slip.Symbol("zzs")}, slip.Symbol("zzs")
+			}
+		}
+		return slip.Fixnum(vals[i]), slip.Fixnum(vals[i])
+	}
 	args := slip.List{}
 	var want []slip.Object
 	reject := false
 	for i := 0; i < npos; i++ {
-		if i < nargs {
+		if i < nreq {
 			args = append(args, slip.Fixnum(vals[i]))
 			want = append(want, slip.Fixnum(vals[i]))
+		} else if i < nargs {
+			f, v := pick(i)
+			args = append(args, f)
+			want = append(want, v)
 		} else {
 			want = append(want, slip.Fixnum(100+i-nreq))
 		}
@@ -576,17 +697,19 @@ func VerifC04Via(route, nreq, nopt, rest, nkey, nargs, perm int) {
 		}
 	case 0 < nkey:
 		given := make([]slip.Object, nkey)
+		has := make([]bool, nkey)
 		for p := 0; p < tail/2; p++ {
 			k := p
 			if perm != 0 {
 				k = nkey - 1 - p
 			}
-			v := slip.Fixnum(vals[npos+2*p+1])
-			args = append(args, slip.Symbol(":"+zzC04ViaName("k", k)), v)
+			f, v := pick(npos + 2*p + 1)
+			args = append(args, slip.Symbol(":"+zzC04ViaName("k", k)), f)
 			given[k] = v
+			has[k] = true
 		}
 		for k := 0; k < nkey; k++ {
-			if given[k] != nil {
+			if has[k] {
 				want = append(want, given[k])
 			} else {
 				want = append(want, slip.Fixnum(200+k))
@@ -646,10 +769,13 @@ func VerifC04Via(route, nreq, nopt, rest, nkey, nargs, perm int) {
 	for i := range want {
 		switch tw := want[i].(type) {
 		case nil:
-			vrt.Assert(gl[i] == nil, "parameter should be nil")
+			vrt.Assert(gl[i] == nil, "parameter should be nil (a supplied nil is not replaced by the default)")
 		case slip.Fixnum:
 			gf, isF := gl[i].(slip.Fixnum)
 			vrt.Assert(isF && gf == tw, "parameter bound to the wrong value")
+		case slip.Symbol:
+			gs, isS := gl[i].(slip.Symbol)
+			vrt.Assert(isS && string(gs) == string(tw), "parameter bound to the wrong value (symbol expected)")
 		case slip.List:
 			rl, isL := gl[i].(slip.List)
 			vrt.Assert(isL && len(rl) == len(tw), "&rest list has the wrong length")
